@@ -134,4 +134,34 @@ def c18(tier, seed):
         work.cleanup()
 
 
-CHECKS = dict(C18=c18)
+def c19(tier, seed):
+    t0 = time.time()
+    work = vlib.Work('C19')
+    try:
+        obs = vlib.Obs()
+        src = vlib.lib_sources() + vlib.core_sources() + [os.path.join(VERIF, 'mon', x) for x in ('tun_talker.c', 'tun_listener.c', 'tunnel.c')]
+        b = vlib.compile_many(work, 'tunnel_asan', src, vlib.ASAN_FLAGS, extra_inc=[os.path.join(vlib.REPO, 'examples')])
+        nseeds = 16 if tier == 'quick' else 64
+        packets = 25 if tier == 'quick' else 1500
+        jobs = [dict(VP_SEED=int(seed) * 1000 + i, VP_PACKETS=packets) for i in range(nseeds)]
+        vlib.run_parallel(lambda e: vlib.run_monitor(obs, b, e, tag='tunnel', timeout=3000), jobs)
+        cov = dict(distinct_nontrivial=int(obs.stats.get('nontrivial', 0)), frames=int(obs.stats.get('tunnel.frames', 0)),
+                   packets=int(obs.stats.get('tunnel.packets', 0)),
+                   rule='the real acf-can-talker main() runs in a child process (its CAN, UDP and raw sockets replaced by socket-pair '
+                        'ends, options through its own argp parser) for {TSCF, NTSCF} x {UDP, raw} x {classic, FD} x frames-per-packet '
+                        '{1, 2, 3, 7, max that fits}; %d runs x %d packets per configuration of frames with unique serial numbers over '
+                        'identifier classes (11-bit, 29-bit, 29-bit-flagged id <= 0x7FF, RTR, extremes), BRS/ESI/FDF combinations varying '
+                        'within a packet, every length 0..8 / 0..64; each packet: control-format length compared with an independent walk '
+                        'of the ACF messages, then handed to the real listener new_packet(); the frames it writes must match the input '
+                        'exactly once and in order (identifier, EFF/RTR, BRS/ESI, FDF if set, length, data).  distinct_nontrivial = '
+                        'frames compared (each carries a unique serial).' % (nseeds, packets))
+        return vlib.finish('C19', 'exploration', tier, seed, obs, cov, [
+            'AF_UNIX socket pairs stand in for PF_CAN and AF_PACKET/UDP sockets (unavailable in the sandbox)',
+            'BRS/ESI compared strictly, FDF required on output only when present on input; bytes of the frame object beyond len are not compared',
+            'frames-per-packet counts are limited to what fits the talker\'s 1500-byte buffer'],
+            t0, min_evals=2000)
+    finally:
+        work.cleanup()
+
+
+CHECKS = dict(C18=c18, C19=c19)
